@@ -8,6 +8,7 @@
 //	dfs2, dfs3   exhaustive schedules (sched.DFS, dfs3 sharded by the first three choices) of
 //	             2 / 3 concurrent requests at every storage / lock / handler boundary
 //	walk3, walk4 seeded random walks over 3 / 4 concurrent requests
+//	reuse        workers as keep-alive connections: one RequestCtx re-used per worker
 //	faults       every single fault (get#n, lock#n, set#n, unlock#n) x every schedule of two
 //	             requests, and the sequential retry case
 //	lifetime     sequential histories with time advance on the virtual clock
@@ -43,6 +44,7 @@ func runVT(e *ev.Env) {
 	runDFS2(e, w)
 	runDFS3(e, w)
 	runWalks(e, w)
+	runReuse(e, w)
 	runFaults(e, w)
 	runLifetime(e, w)
 	runMemlock(e, w)
